@@ -51,6 +51,22 @@ func run(r *vk.Run) {
 // ---------------------------------------------------------------------------------------------------------
 // part A: core resources
 
+// corePaths picks a read mask: top-level paths, paths into a singular and a repeated sub-message, a two-level path.
+func corePaths(rng *vk.Rand) []string {
+	switch rng.Intn(5) {
+	case 0:
+		return []string{"default_string", "default_nested_message"}
+	case 1:
+		return []string{"default_string", "default_nested_message.a"}
+	case 2:
+		return []string{"repeated_nested_message.a", "default_int32"}
+	case 3:
+		return []string{"default_nested_message.corecursive.default_string"}
+	default:
+		return []string{"default_foreign_message.c", "repeated_foreign_message.c"}
+	}
+}
+
 var gen = vk.GenOpts{Density: 30, MaxDepth: 2, MaxList: 2}
 
 type coreSub struct {
@@ -93,7 +109,7 @@ func core(r *vk.Run) {
 			ctx, cancel := context.WithCancel(context.Background())
 			ro := []resource.ReadOption{resource.WithBackpressure(rng.Bool()), resource.WithUpdatesOnly(rng.Chance(1, 3))}
 			if rng.Chance(1, 3) {
-				ro = append(ro, resource.WithReadMask(&fieldmaskpb.FieldMask{Paths: []string{"default_string", "default_nested_message"}}))
+				ro = append(ro, resource.WithReadMask(&fieldmaskpb.FieldMask{Paths: corePaths(rng)}))
 			}
 			switch {
 			case isValue:
@@ -192,7 +208,7 @@ func core(r *vk.Run) {
 				observe("get-result", val.Get())
 			case isValue:
 				method = "Get(mask)"
-				observe("get-result", val.Get(resource.WithReadPaths(&tat{}, "default_string", "default_nested_message")))
+				observe("get-result", val.Get(resource.WithReadMask(&fieldmaskpb.FieldMask{Paths: corePaths(rng)})))
 			case op < 2:
 				method = "Add"
 				in = vk.GenMessage(rng, &tat{}, gen)
@@ -228,7 +244,7 @@ func core(r *vk.Run) {
 				}
 			default:
 				method = "List(mask)"
-				for _, m := range col.List(resource.WithReadPaths(&tat{}, "default_string", "default_nested_message")) {
+				for _, m := range col.List(resource.WithReadMask(&fieldmaskpb.FieldMask{Paths: corePaths(rng)})) {
 					observe("list-result", m)
 				}
 			}
